@@ -37,10 +37,11 @@ CHECKS['C17'] = ('uncached path never touches the cache and evaluates afresh; hi
                  'CFG reachability/dominance with branch pruning, AST dataflow, table agreement')
 CHECKS['C18'] = ('with in_place=False the set path stores only into fresh copies and never into the viewed tree; in_place threaded unchanged through recursion and every set() arm; all copy APIs route through set(in_place=False); apply copies the root; Key() pattern precedes the multi-key pattern',
                  'effect/alias analysis with constant folding of the in_place flag, AST routing checks')
+CHECKS['C19'] = ('necessary bookkeeping of the flush/slice/carry loop only: every column buffered and sized from the same batch; mismatches raise; strict lock-step slicing; the held slice is emitted before being overwritten and has exactly one disposition (yield / padded yield / carry) per tail path; partial batches and padding only when exhausted; carried remainder re-buffered with its sizes; buffers reset after a flush; helpers keep the container kind; operators pass their batch sizes and column counts in the right roles. Row conservation and exact sizes as statements about values are NOT decided',
+                 'CFG path enumeration and dominance over rebatched_args, AST table agreement for helpers and call sites')
 NA = {
     'C02': 'slice membership and per-slice aggregate equality quantify over runtime mask/slice-key values produced by user functions; no structural clause separates a correct from an off-by-one mask builder',
     'C03': 'equality of outputs across threaded/fused/sharded executions is a relation between executions; its only structural ingredients (shared-input locking, merge count) are claimed under C13 and C16',
-    'C19': 'row conservation and exact batch sizes are sums over the runtime sequence of input batch sizes; the carry-over loop has no invariant statable on its shape alone',
 }
 
 def main():
